@@ -108,6 +108,10 @@ def param2ast (p : Param) : Res Attr :=
              then .ok ⟨t, .const .none⟩
              else .ok ⟨t, .const (.str s)⟩)               -- `ast.parse` of back-ticks: SyntaxError, kept as text
           else if numericText s then .unmodelled "a str default that reads as a number under a generic type"
+          -- (`None`, `True`, `False` are constants to `ast.parse`, not names)
+          else if s == sNone then .ok ⟨t, .const .none⟩
+          else if s == ['T', 'r', 'u', 'e'] then .ok ⟨t, .const (.bool true)⟩
+          else if s == ['F', 'a', 'l', 's', 'e'] then .ok ⟨t, .const (.bool false)⟩
           else if identText s then .ok ⟨t, .expr s⟩       -- parsed as a name
           else .unmodelled "a str default parsed as an expression under a generic type"
         | some v => .ok ⟨t, .const (setValue v)⟩
